@@ -453,7 +453,7 @@ class _Inliner(ast.NodeTransformer):
         if target is not None and isinstance(t.result, ast.Name) and t.result.id not in t.params:
             # `t = helper(..)` where the helper ends in `return local`: the local simply is `t` (unless the arguments mention t)
             used = {n.id for a in m.values() for n in ast.walk(a) if isinstance(n, ast.Name)}
-            if target not in used and target not in _locals_of(t.stmts, set(t.params)):
+            if target not in used and (target == t.result.id or target not in _locals_of(t.stmts, set(t.params))):
                 fuse = (t.result.id, target)
         ren = self._renaming(t, fuse, m)
         sub = _Subst(m, ren)
@@ -679,6 +679,8 @@ class _Inliner(ast.NodeTransformer):
         call, t, recv = cands[0]
         if not self._evaluated_first(root, call) and not (_pure_template(t) and self._unconditional(root, call)):
             return None
+        if t.form == "A" and isinstance(st, (ast.Assign, ast.Return, ast.Expr)) and getattr(st, "value", None) is call:
+            return None  # `t = helper()` / `return helper()` / `helper()`: the plain statement forms below (with result fusion)
         if t.form == "A":
             # statements first, then the statement with the call replaced by the helper's result expression
             sp = self._splice(t, call, recv, st)
